@@ -25,6 +25,7 @@ func runC19(p *Prog, r *Report) {
 	c19Symmetry(p, r)
 	c19Inheritance(p, r)
 	c19QueueLengths(p, r)
+	c19OptionsReadAtUse(p, r, "C19.9/options-read-at-use")
 	r.Describe("C19.8/queue-swap-wakes", "a queue-length option takes effect for calls already blocked: the step that installs the new queue closes the object's sizeQ")
 	queueSwapWakes(p, r, "C19.8/queue-swap-wakes", func(rel string) bool { return strings.HasPrefix(rel, "protocol/") })
 	r.Floor("C19.8/queue-swap-wakes", "e10.queue_swaps", 15)
